@@ -75,11 +75,23 @@ def _main_with_scratch():
     if not os.environ.get("VERIF_SCRATCH"):
         own = tempfile.mkdtemp(prefix="verif_scratch_", dir=os.environ.get("TMPDIR", "/tmp"))
         os.environ["VERIF_SCRATCH"] = own
+    rc = 2
     try:
-        return main()
+        rc = main()
+        return rc
     finally:
         if own:
             shutil.rmtree(own, ignore_errors=True)
+        try:
+            from sim import world as _w
+            hangs = _w.HANGS
+        except Exception:
+            hangs = 0
+        if hangs:
+            # a manager thread of this process is blocked for ever and may hold logging locks
+            sys.stdout.flush()
+            sys.stderr.flush()
+            os._exit(rc if isinstance(rc, int) else 2)
 
 
 if __name__ == "__main__":
